@@ -1,4 +1,9 @@
-"""Per-property registry: family/harness, required theorems, evidence texts."""
+"""Per-property registry: family/harness, required theorems, evidence texts.
+
+The entries live in tools/props/<family>.py; each plug-in defines any of the module-level dicts
+FAMILIES (harness family -> build spec), PROPS (property id -> check spec), MANIFEST_TEXT
+(property id -> texts for MANIFEST.json) and NOT_APPLICABLE (property id -> reason)."""
+import os, glob, importlib.util, sys
 
 ALLOWED_AXIOMS = {"propext", "Classical.choice", "Quot.sound"}
 
@@ -10,142 +15,22 @@ TRUSTED_BASE_COMMON = [
     "not verified: the C++ compiler's translation of the headers, libc/libstdc++ internals, the allocator",
 ]
 
-FAMILIES = {
-    "codec": dict(src="codec.cpp"),
-    "conv": dict(src="conv.cpp"),
-    "pool": dict(src="pool.cpp"),
-}
+FAMILIES = {}
+PROPS = {}
+MANIFEST_TEXT = {}
+NOT_APPLICABLE = {}
 
-DEFAULT_MODE_VARIANTS = ["", "-DST_DEFAULT_VALIDATION=ST::substitute_invalid -DVH_DEFAULT_MODE=\"s\"",
-                         "-DST_DEFAULT_VALIDATION=ST::assume_valid -DVH_DEFAULT_MODE=\"a\""]
-
-def T(prop, *names):
-    return ["StVerif.Props.%s.%s" % (prop, n) for n in names]
-
-PROPS = {
-    "C14": dict(
-        family="codec",
-        theorems=T("C14", "hexEncode_eq_spec", "hexEncode_length", "b64Encode_eq_spec", "b64Encode_length",
-                   "hexDecodeAlloc_encode", "hexDecodeInto_encode", "b64DecodeAlloc_encode", "b64DecodeInto_encode",
-                   "hexDecode_upper", "tables_inverse"),
-        rule="exhaustive: every 3-byte group (2^24), 2-byte (2^16) and 1-byte (2^8) tail through encode + both decoders, as 4096-item "
-             "blocks compared by digest; plus every length 0..70 with seeded random content individually, incl. upper-case hex. "
-             "non-trivial = non-empty input; distinct = distinct input lines",
-        exhaustive={"quick": True, "thorough": True},
-        exhaustive_note="the per-group functions are enumerated completely; whole byte arrays are covered by the theorems (induction), not by enumeration",
-        trusted_base=["tables hex_chars/hex_values/b64_chars/b64_values regenerated from include/st_codecs_priv.h by tools/gen_tables.py (regex translator)"],
-        assumptions=["bytes are 0..255; ST::string carrying arbitrary bytes is built with assume_valid"],
-    ),
-    "C15": dict(
-        family="codec",
-        theorems=T("C15", "hexDecodeAlloc_accepts_iff", "hexDecodeInto_spec", "hexDecodeInto_writes_le", "hexDecode_null_query",
-                   "b64DecodeAlloc_accepts_iff", "b64DecodeInto_spec", "b64DecodeInto_writes_le", "b64Decode_null_query",
-                   "sizeQuery_eq_decodedLength", "decoders_never_oob"),
-        rule="exhaustive: every 4-character final group over a critical alphabet (quick 20 symbols, thorough all 64 + 13 odd symbols incl. '=', NUL, "
-             "0x80, 0xFF) after 0..2 valid groups and after malformed groups, output_size = need-1/need/need+1; every hex string of length 1..3 (4) over 32 "
-             "symbols; seeded random mutated encodings x cap classes x null output. non-trivial = non-empty text",
-        exhaustive={"quick": False, "thorough": False},
-        trusted_base=["tables regenerated from include/st_codecs_priv.h by tools/gen_tables.py",
-                      "writes outside the caller's buffer are observed by ASan red zones and a canary, the bound itself is the theorem *_writes_le"],
-        assumptions=["reading of 'decoded length implied by the input's length and padding' for text with invalid characters: each '=' among the last two "
-                     "characters counts one byte (equals the RFC length on every valid text: theorem sizeQuery_eq_decodedLength)"],
-    ),
-}
-
-PROPS.update({
-    "C01": dict(
-        family="conv", theorems=T("C01", "convert_std", "chain_roundtrip", "latin1_roundtrip", "string_from_std", "string_to_std"),
-        rule="every Unicode scalar (1,112,064) alone and (thorough) in 25 neighbour contexts through 21 routes x 3 modes as 8192-scalar blocks compared by digest; "
-             "14 boundary scalars x 25 contexts, all 256 Latin-1 bytes x 3 positions and seeded random scalar sequences (length 0..40) through every public route "
-             "(free functions ptr/buffer, ST::string constructors/set/operator=/from_*/literals/std::basic_string/string_view, to_* members/std strings). "
-             "non-trivial = non-empty input; distinct = distinct input lines (blocks count their scalars)",
-        exhaustive={"quick": True, "thorough": True},
-        exhaustive_note="exhaustive over single scalars per route/mode; sequences are covered by the theorems (list induction), not by enumeration",
-        assumptions=["wchar_t is 32-bit on this platform: every wchar_t route is the UTF-32 route; the 16-bit enable_if branches are not compiled"],
-    ),
-    "C02": dict(
-        family="conv", variants=DEFAULT_MODE_VARIANTS,
-        theorems=T("C02", "convert_eq_reference", "string_eq_reference", "check_throws_iff", "check_throws_iff_malformed", "string_check",
-                   "subst_never_throws", "subst_output", "string_subst_revalidates", "string_wellformed_unchanged", "tolerated_same_decision",
-                   "isolation_utf8", "subst_output_valid_utf32_partial", "subst_output_invalid_utf16_witness", "subst_output_invalid_utf32_witness"),
-        partial="'substitute_invalid output always passes check_validity' is proved for ST::string/UTF-8 output unconditionally and for UTF-32 output under the "
-                "hypothesis that no segment decodes above 10FFFF; its negation is proved for UTF-16/UTF-32 targets by two witnesses (recorded findings). "
-                "'calls that omit the mode behave as ST_DEFAULT_VALIDATION' is a fact about overload plumbing: decided by the correspondence over three builds, not by a theorem.",
-        rule="every string over a 14-symbol critical byte alphabet up to length 4 (quick) / 5 (thorough), over 8 UTF-16 and 9 UTF-32 critical units, "
-             "a second byte alphabet with C0/C1/F5/FF up to length 3, valid text with a malformed unit spliced/substituted at every position, seeded random garbage; "
-             "each through every route reading that encoding x {check, substitute, assume, default} x Latin-1 with/without substitution; harness rebuilt per "
-             "ST_DEFAULT_VALIDATION setting. non-trivial = non-empty input",
-        exhaustive={"quick": False, "thorough": False},
-    ),
-    "C03": dict(
-        family="conv", theorems=T("C03", "convert_total", "convert_null", "measure_eq_fill", "fill_le_measure", "size_is_reference", "flags_never_collide",
-                                  "string_total", "string_to_total"),
-        partial="loads/stores of the real machine are observed by ASan/UBSan on every generated case, not proved; the decoders are modelled over lists (pattern "
-                "matching), so 'never reads outside the input' is carried by the correspondence run with exact-size heap inputs",
-        rule="the C02 generators (arbitrary garbage in all four source encodings, every truncation point of well-formed text, null pointers with zero length), each "
-             "input in an exact-size heap block under ASan+UBSan; observed: exception kind or (size(), units, NUL terminator); aborts/hangs attributed per case",
-        exhaustive={"quick": False, "thorough": False},
-        trusted_base=["reads outside the input and writes outside the result are observed by ASan on the real code; the model-level counterpart is measure = fill length"],
-    ),
-})
-
-PROPS.update({
-    "C05": dict(
-        family="pool", theorems=[],
-        rule="histories of buffer operations with a full snapshot of every live object after every step: every sequence of 2 (quick) / 3 (thorough) operations "
-             "from a 25-entry menu (clear, copy/move assignment incl. self, allocate, allocate+fill around the limit, destroy+reconstruct by copy/move) applied to three "
-             "objects in all 6x6x3 size-class combinations, plus seeded random histories of 30 operations over 3..6 objects for all four element types; ASan + LSan. "
-             "non-trivial = more than 3 operations",
-        exhaustive={"quick": False, "thorough": False},
-    ),
-})
+_here = os.path.dirname(os.path.abspath(__file__))
+sys.path.insert(0, _here)
+for _path in sorted(glob.glob(os.path.join(_here, "props", "*.py"))):
+    _spec = importlib.util.spec_from_file_location("props_" + os.path.basename(_path)[:-3], _path)
+    _mod = importlib.util.module_from_spec(_spec)
+    _spec.loader.exec_module(_mod)
+    for _name, _dst in (("FAMILIES", FAMILIES), ("PROPS", PROPS), ("MANIFEST_TEXT", MANIFEST_TEXT), ("NOT_APPLICABLE", NOT_APPLICABLE)):
+        _dst.update(getattr(_mod, _name, {}))
 
 PENDING = "not yet built in this round (machinery under construction; see DESIGN.md section 8)"
-NOT_APPLICABLE = {("C%02d" % i): PENDING for i in range(1, 21)}
-
-MANIFEST_TEXT = {
-    "C05": dict(text="(under construction) object/heap machine for ST::buffer<T>; histories compared with the implementation step by step",
-                design_ref="DESIGN.md section 3, C04/C05", note="see evidence", technique="Lean 4 proof over a hand model + differential correspondence under ASan/LSan"),
-    "C01": dict(
-        text="Theorems (all scalar sequences by induction, all three modes): each of the six UTF-8/16/32 directions, ST::string construction from any encoding and "
-             "the to_* members map the standard encoding (Unicode Table 3-6 / D91 written with / and %) to the standard encoding, chains return the original units, "
-             "and Latin-1 bytes round-trip through every UTF form. They follow from one refinement theorem (model = reference transcoding). The model is tied to the "
-             "code by running every public route on all 1,112,064 scalars (digest blocks) and on boundary/neighbour/random sequences.",
-        design_ref="DESIGN.md section 3, C01",
-        note="Trusted: Lean kernel + 3 standard axioms, Spec/Unicode.lean as the meaning of 'standard encoding', the conv harness (ASan/UBSan) and its route table. "
-             "wchar_t routes are the UTF-32 routes on this platform; NUL-terminated routes see text up to the first zero unit (U+0000 goes through sized routes).",
-        technique="Lean 4 proof (refinement to a reference transcoder) + exhaustive per-scalar differential correspondence over every route"),
-    "C02": dict(
-        text="Theorems (arbitrary units of the right width, every mode): convert = reference transcoding defined from an independent left-to-right segmentation "
-             "(tolerated forms are sequences; stray continuation, short lead, F8-FF, unpaired surrogate, UTF-32 > 10FFFF are malformed units); check throws iff a unit is "
-             "malformed or a value does not fit the target; substitute never throws and yields the transcoding with U+FFFD/'?' per malformed unit; the repaired ST::string "
-             "re-validates and repair is idempotent; well-formed text is unchanged by all modes. Literal 're-validates' for UTF-16/32 targets is false by design: proved "
-             "negation witnesses are recorded findings, the partial theorem excludes them. Default-mode plumbing is checked over three ST_DEFAULT_VALIDATION builds.",
-        design_ref="DESIGN.md section 3, C02",
-        note="Trusted as C01. Reading chosen: assume_valid on malformed input is only required to be safe (C03), not to produce a particular text.",
-        technique="Lean 4 proof (refinement to a segmentation-based reference) + exhaustive short-string differential correspondence in three default-mode builds"),
-    "C03": dict(
-        text="Theorems (every input of fewer than 2^28 units in each source encoding, every mode): a conversion returns a buffer or throws unicode_error - never an "
-             "assertion, out-of-bounds store, unwritten tail or other exception; the fill pass stores exactly the measured number of units and never more on the throwing "
-             "path; null input gives an empty buffer; the result size equals the reference size. One genuine defect (utf8_to_utf16 assertion above U+10FFFF) was found by "
-             "this check and repaired. Machine-level reads/writes are observed under ASan with exact-size heap inputs, not proved.",
-        design_ref="DESIGN.md section 3, C03",
-        note="Trusted as C01; the decoders are modelled over lists, so an out-of-range *read* is expressible only in the harness (ASan), which is named as the unproved part.",
-        technique="Lean 4 proof of two-pass consistency and totality + differential correspondence under ASan/UBSan with abort/hang attribution"),
-    "C14": dict(
-        text="Theorems (Lean kernel, all byte arrays by induction): the model of hex_encode/base64_encode equals the RFC 4648 encoding written with / and %, "
-             "lengths are 2n and 4*ceil(n/3), and both decoder forms (and upper-case hex) return the original bytes. The model is tied to the code by "
-             "exhaustive differential execution of every 1-, 2- and 3-byte group (2^24+2^16+2^8) and by regenerating the four constant tables from the source.",
-        design_ref="DESIGN.md section 3, C14/C15",
-        note="Trusted: Lean kernel, propext/Classical.choice/Quot.sound, the RFC spec definitions, the correspondence harness (ASan/UBSan build of /repo's headers), "
-             "the regex table translator. Not verified: compiler, allocator.",
-        technique="Lean 4 proof over a hand model + exhaustive differential correspondence + regenerated tables"),
-    "C15": dict(
-        text="Theorems (all texts over 256 byte values, all output sizes): the allocating decoders return ok exactly on valid text and throw codec_error otherwise "
-             "(assertion unreachable), the caller-buffer decoders return the implied length exactly when the text is valid and fits and -1 otherwise, never store "
-             "more than output_size bytes, answer the null-output size query, and never read past the text. Tied to the code by exhaustive final-group sweeps and "
-             "mutated encodings under ASan with exact-size output blocks.",
-        design_ref="DESIGN.md section 3, C14/C15",
-        note="Trusted as C14. The machine-level 'no write outside the buffer' is observed by ASan/canaries; the bound on the number of stores is the theorem.",
-        technique="Lean 4 proof over a hand model + differential correspondence under ASan + regenerated tables"),
-}
+for _i in range(1, 21):
+    _pid = "C%02d" % _i
+    if _pid not in PROPS and _pid not in NOT_APPLICABLE:
+        NOT_APPLICABLE[_pid] = PENDING
